@@ -239,3 +239,68 @@ func (u *VerifUDP) SentPongTokens() [][]byte {
 	}
 	return out
 }
+
+// ---- packet-history state machine (C17 last round)
+
+// WaitInit waits until the table's initial refresh is done (Table.bond refuses inbound-ping bonds before).
+func (u *VerifUDP) WaitInit(timeout time.Duration) bool {
+	select {
+	case <-u.t.Table.initDone:
+		return true
+	case <-time.After(timeout):
+		return false
+	}
+}
+
+func (u *VerifUDP) HasBond(id NodeID) bool { return u.t.db.hasBond(id) }
+
+// SetBondTime rewrites the last-pong time of id (simulates the clock having advanced).
+func (u *VerifUDP) SetBondTime(id NodeID, unix int64) { u.t.db.updateBondTime(id, time.Unix(unix, 0)) }
+
+// TableLen is the number of nodes in the table's buckets.
+func (u *VerifUDP) TableLen() int {
+	u.t.Table.mutex.Lock()
+	defer u.t.Table.mutex.Unlock()
+	n := 0
+	for _, b := range u.t.Table.buckets {
+		n += len(b.entries)
+	}
+	return n
+}
+
+// IssueFindnode starts udp.findnode towards (id, addr) in the background.
+func (u *VerifUDP) IssueFindnode(id NodeID, addr *net.UDPAddr) {
+	go u.t.findnode(id, addr, id)
+}
+
+// VerifSent describes one datagram the transport wrote.
+type VerifSent struct {
+	Kind  string // ping | pong | findnode | neighbors | ?
+	Size  int
+	Nodes int    // neighbors: number of entries
+	Hash  []byte // the packet hash (a ping's hash is the token its pong must carry)
+}
+
+// SentFrom decodes the datagrams written since index `from`.
+func (u *VerifUDP) SentFrom(from int) []VerifSent {
+	u.conn.mu.Lock()
+	pk := append([][]byte(nil), u.conn.packets...)
+	u.conn.mu.Unlock()
+	var out []VerifSent
+	for i := from; i < len(pk); i++ {
+		b := pk[i]
+		s := VerifSent{Kind: "?", Size: len(b)}
+		if len(b) >= macSize {
+			s.Hash = append([]byte(nil), b[:macSize]...)
+		}
+		req, _, _, err := decodePacket(u.t.netcompat(), append([]byte(nil), b...))
+		if err == nil {
+			s.Kind = verifKind(req)
+			if n, ok := req.(*neighbors); ok {
+				s.Nodes = len(n.Nodes)
+			}
+		}
+		out = append(out, s)
+	}
+	return out
+}
